@@ -269,6 +269,18 @@ def judge (force : Nat) (st : St) (method path : Bytes) (hs : List (Bytes × Byt
         let c08cls := if c09e then ["C09-e"] else []
         add st1 (c05bad ++ c07bad ++ c08bad ++ c10bad) (c07cls ++ c10cls ++ c08cls) "hit"
 
+/-- C06 on pass-through encodings (no recompression on this rule): a response judged wrong in its body / framing, outside every
+    listed class, for a resource whose origin answer is LABELLED with a Content-Encoding: what the client decodes is not the
+    origin's content (seeded change C06-m7: an encoded entry re-published with `Content-Length: 0` after a 304) -/
+def judgeC06 (st st' : St) (path : Bytes) : St :=
+  let newBad := st'.bad.drop st.bad.length
+  let encoded : Bool := match st.cur.find? (·.path == path) with
+    | some c => !(valuesCI c.headers b!"content-encoding").isEmpty
+    | none => false
+  if encoded && st'.cls.length == st.cls.length && newBad.any (fun b => b.startsWith "bad:C05:" || b.startsWith "bad:C07:") then
+    { st' with bad := st'.bad ++ ["bad:C06:encoded-response-delivered-with-other-bytes-or-length-than-the-origin's"] }
+  else st'
+
 /-- the converse of C08: while the entry for this key is fresh, the origin is not contacted -/
 def converse (force : Nat) (st : St) (method path : Bytes) (hs : List (Bytes × Bytes)) (o : Obs) : List String :=
   let key := keyOf method path hs
@@ -353,7 +365,7 @@ def hSysC : Handler := fun impl => do
         | [] => (st, [])
         | o :: rest =>
           let conv := converse force st m p hs o
-          let st' := judge force st m p hs o
+          let st' := judgeC06 st (judge force st m p hs o) p
           ({ st' with bad := st'.bad ++ conv }, rest)
       | .abort m p hs =>
         -- the client went away mid-body: what it saw is not judged; if the origin was contacted the
